@@ -174,6 +174,13 @@ class RankRunner:
                     v.set_iter(self.iter)      # "the optimizer's value" for this iteration, changed between iterations
                 self.iter += 1
                 self.model.train()
+                if op.get('eval_modules'):
+                    # fine-tuning style: some registered layers are in eval mode during this iteration (same on every rank)
+                    reg = sorted(kmodel.kfac_layer_names(self.model))
+                    mods_ = dict(self.model.named_modules())
+                    for idx in op['eval_modules']:
+                        if reg:
+                            mods_[reg[idx % len(reg)]].eval()
                 self.model.zero_grad(set_to_none=c.get('zero_to_none', True))
                 for micro in range(c.get('accum', 1)):
                     simdist.set_phase(f'op{i}:train/fwdbwd')
@@ -264,28 +271,31 @@ class RankRunner:
                 if self.sched is not None:
                     self.sched.step()
             elif kind == 'snapshot':
-                # a state dict kept alive in memory (not pickled) must not change when training continues
-                self._snap_live = self.pre.state_dict()
-                self._snap_copy = pickle.loads(pickle.dumps(self._snap_live))
-                self._snap_params = [p.detach().clone() for p in self.model.parameters()]
-                self._snap_buffers = [b.detach().clone() for b in self.model.buffers()]
+                # a state dict kept alive in memory (not pickled) must not change when training continues; several may be kept (slot)
+                live = self.pre.state_dict()
+                self._snaps = getattr(self, '_snaps', {})
+                self._snaps[op.get('slot', 0)] = {'live': live, 'copy': pickle.loads(pickle.dumps(live)),
+                                                  'params': [p.detach().clone() for p in self.model.parameters()],
+                                                  'buffers': [b.detach().clone() for b in self.model.buffers()]}
             elif kind == 'rollback':
                 # load an older checkpoint into the SAME (live) preconditioner and put the weights back
+                snap = self._snaps[op.get('slot', 0)]
                 with warnings.catch_warnings():
                     warnings.simplefilter('ignore')
                     # 'live': the very dict returned by state_dict() (it may alias live tensors); otherwise a deep copy taken at that time
-                    state = self._snap_live if op.get('live') else pickle.loads(pickle.dumps(self._snap_copy))
+                    state = snap['live'] if op.get('live') else pickle.loads(pickle.dumps(snap['copy']))
                     self.pre.load_state_dict(state, compute_inverses=op.get('compute_inverses', True))
                 with torch.no_grad():
-                    for p, q in zip(self.model.parameters(), self._snap_params):
+                    for p, q in zip(self.model.parameters(), snap['params']):
                         p.copy_(q)
-                    for b, q in zip(self.model.buffers(), self._snap_buffers):
+                    for b, q in zip(self.model.buffers(), snap['buffers']):
                         b.copy_(q)
                 if self.twin is not None:
                     kmodel.copy_params(self.model, self.twin)
             elif kind == 'check_snapshot':
                 bad = None
-                live, copy_ = self._snap_live, self._snap_copy
+                snap = self._snaps[op.get('slot', 0)]
+                live, copy_ = snap['live'], snap['copy']
                 for key in copy_:
                     if key != 'layers' and live.get(key) != copy_[key]:
                         bad = f'{key} changed from {copy_[key]!r} to {live.get(key)!r}'
